@@ -1554,10 +1554,19 @@ func (g *gen) behC18() M {
 			// extended: parameters of various sizes
 			g.id++
 			st := M{"id": g.id, "cols": []any{}, "oids": []any{}, "prog": []any{M{"op": "complete", "tag": "OK"}, M{"op": "ret", "r": "nil"}}}
+			fails := g.chance(0.3)
+			if fails {
+				// the statement function fails: whatever the library does about a failed Execute (reporting, logging),
+				// the values handed out stay as they were
+				st["prog"] = []any{M{"op": "ret", "r": "err", "err": g.simpleErr()}}
+			}
 			params := []any{}
 			np := 1 + g.rng.Intn(3)
 			for j := 0; j < np; j++ {
 				sz := sizes[g.rng.Intn(len(sizes))] / 2
+				if fails && g.chance(0.7) {
+					sz = []int{63, 64, 65, 66, 67, 100, 200}[g.rng.Intn(7)]
+				}
 				if max := (L - 64) / np; sz > max { // the Bind message itself must fit the limit
 					sz = max
 				}
@@ -1566,8 +1575,12 @@ func (g *gen) behC18() M {
 				params = append(params, M{"null": false, "_hex": hex.EncodeToString(b)})
 			}
 			pn := g.pick("", "p1")
+			pf := []any{1}
+			if fails {
+				pf = []any{[]any{}, []any{0}, []any{1}}[g.rng.Intn(3)].([]any) // text or binary parameters
+			}
 			steps = append(steps, send(M{"t": "P", "name": "", "q": M{"id": g.id, "parse": "ok", "stmts": []any{st}}, "noids": 0}),
-				send(M{"t": "B", "portal": pn, "stmt": "", "pfmt": []any{1}, "params": params, "rfmt": []any{}}),
+				send(M{"t": "B", "portal": pn, "stmt": "", "pfmt": pf, "params": params, "rfmt": []any{}}),
 				send(M{"t": "E", "portal": pn, "max": g.maxRows()}))
 			if g.chance(0.5) {
 				// the portal is closed afterwards: what its statement function was given stays as it was
